@@ -2205,6 +2205,7 @@ private:
         size16_t arg = uninitialized16;
 
         size8_t has_sr_conflict = 0;
+        size16_t sr_conflict_rule = uninitialized16;
     };
 
     using lr1_parse_table = parse_table_entry[state_count_cap][symbol_count];
@@ -2426,6 +2427,7 @@ private:
                 }
 
                 entry.arg = new_state_idx;
+                entry.sr_conflict_rule = reduction_rule_idx;
                 if (symbol_idx == get_parse_table_idx(true, error_recovery_token_idx))
                     entry.kind = parse_table_entry_kind::shift_error_recovery_token;
 
@@ -2784,7 +2786,7 @@ private:
             else if (entry.kind == parse_table_entry_kind::reduce && entry.has_sr_conflict)
                 s << " S/R CONFLICT, prefer reduce(" << gi.rule_infos[entry.arg].r_idx << ") over shift\n";
             else if (is_shift(entry.kind) && entry.has_sr_conflict)
-                s << " S/R CONFLICT, prefer shift over reduce(" << gi.rule_infos[entry.arg].r_idx << ")\n";
+                s << " S/R CONFLICT, prefer shift over reduce(" << gi.rule_infos[entry.sr_conflict_rule].r_idx << ")\n";
             else if (is_shift(entry.kind))
                 s << " shift to " << entry.arg << "\n";
             else if (entry.kind == parse_table_entry_kind::reduce)
